@@ -335,7 +335,7 @@ func failureOracle(inc *Inc, ex *Expect, victim *RTask, what string, others ...*
 
 func init() {
 	Register(&Check{ID: "C09", Level: "exploration",
-		Rule: "one case = one generated workflow, one tape-chosen victim task and one failure kind (cmd-exit before / after partial write / after all outputs, cmd-signal at a tape-chosen micro-step, cmd-omit of one declared output, cmd-list: the command is an && list whose middle step fails after the first step wrote all outputs, bad-input: empty parameter value or invalid character in the output path) injected while sibling tasks run under a tape-chosen schedule. Oracle: exit status != 0, RUN-RETURNED marker absent, no output of the victim at its final path, no start event of any transitive dependant, everything else that was finalized is reference-correct; optional history: temp directories removed, same workflow and failure again - the second attempt must stop the same way. Round 5: failing command of a CommandToParams component; a parameter source nobody consumes; history start-again-in-place (nothing removed); producers killed by SIGPIPE when the consumer closes the stream early. Round 6: an output path that needs a tag the file lacks; victims among tasks whose inputs differ only in the directory. Round 7: victims among several processes without out-ports. distinct = event-log hash; non-trivial = the fault fired, >=1 other task executed, >=1 non-default choice",
+		Rule: "one case = one generated workflow, one tape-chosen victim task and one failure kind (cmd-exit before / after partial write / after all outputs, cmd-signal at a tape-chosen micro-step, cmd-omit of one declared output, cmd-list: the command is an && list whose middle step fails after the first step wrote all outputs, bad-input: empty parameter value or invalid character in the output path) injected while sibling tasks run under a tape-chosen schedule. Oracle: exit status != 0, RUN-RETURNED marker absent, no output of the victim at its final path, no start event of any transitive dependant, everything else that was finalized is reference-correct; optional history: temp directories removed, same workflow and failure again - the second attempt must stop the same way. Round 5: failing command of a CommandToParams component; a parameter source nobody consumes; history start-again-in-place (nothing removed); producers killed by SIGPIPE when the consumer closes the stream early. Round 6: an output path that needs a tag the file lacks; victims among tasks whose inputs differ only in the directory. Round 7: victims among several processes without out-ports. Round 8: an invalid character in a directory of the output path. distinct = event-log hash; non-trivial = the fault fired, >=1 other task executed, >=1 non-default choice",
 		Run: func(c *Case) Verdict {
 			var w *WF
 			early := false
